@@ -361,11 +361,13 @@ func init() {
 	register(&PropSpec{
 		ID:        "C07",
 		Level:     "exploration",
-		Technique: "bounded-exhaustive enumeration of a message grammar delivered by a scripted peer to a real Netceptor node in a synctest bubble (plus the real ExternalBackend framing reader), each input followed by a liveness probe from a well-behaved real neighbour",
-		Rule: "messages: length 0; every type byte {0,1,2,3,4,255} x {empty, truncated JSON, binary, deep nesting, 12 JSON value shapes}; routing update and service advertisement with each of their 7 fields absent or replaced by 15/13 wrongly typed values; semantically absurd updates (victim's own ID with same/newer/older epoch, forged duplicate notice, forwarder change, cost disagreement, 3000 connections, 70 KB strings); data packets of every length 1..41, TTL {0,1,255} x 4x4 node hashes x 5 service names, malformed unreach/ping payloads, 64 KB packet; each in both protocol phases (thorough: all ordered pairs of class representatives). " +
-			"Every input is a distinct message; all are non-trivial (delivered to the real runProtocol loop). Oracle: process alive, victim not shut down, ping g->v and v->g answered, route intact.",
+		Technique: "bounded-exhaustive enumeration of a message grammar delivered by a scripted peer to a real Netceptor node in a synctest bubble, and over a real TCP backend connection to the real daemon process, each input followed by a liveness probe from a well-behaved real neighbour",
+		Rule: "messages: length 0; every type byte {0,1,2,3,4,255} x {empty, truncated JSON, binary, deep nesting, 12 JSON value shapes}; routing update and service advertisement with each of their 7 fields absent or replaced by 15/13 wrongly typed values; semantically absurd updates (victim's own ID with same/newer/older epoch, forged duplicate notice, forwarder change, cost disagreement, 3000 connections, 70 KB strings); data packets of every length 1..41, TTL {0,1,255} x 4x4 node hashes x 5 service names, malformed unreach/ping payloads, 64 KB packet; each in both protocol phases (thorough: all ordered pairs of class representatives); two representatives of every grammar class (thorough: every input) also against the real daemon over a real TCP backend connection, with a second real connection as the well-behaved neighbour. " +
+			"Every input is a distinct message; all are non-trivial (delivered to the real runProtocol loop). Oracle: process alive, victim not shut down, ping g->v and v->g answered, route intact; real daemon: process alive, `status` answered on the control socket, the neighbour's ping datagram answered, a fresh backend connection greeted.",
 		Assumptions: []string{"the liveness probe uses the direct link between victim and good peer (a mesh member can by design advertise false topology about third nodes)"},
 		Run:         runC07,
+		Exec:        execC07,
+		Coord:       coordC07,
 		CaseTimeout: 60 * time.Second,
 	})
 }
